@@ -523,6 +523,11 @@ def parse_equation_terms(equation: str) -> List[Term]:
             term = term._replace(type=new_type)
         return term
 
+    # A statement can pass the checks in `split_equations_iter()` without an
+    # equals sign e.g. a code fence inside brackets
+    if '=' not in equation:
+        raise ParserError(f"Failed to parse equation (no '=' found): '{equation}'")
+
     left, right = equation.split('=', maxsplit=1)
 
     try:
